@@ -23,6 +23,7 @@ type Engine struct {
 	// NoInline switches the in-place expansion of helpers off (inline.go)
 	NoInline bool
 	inliner  *inliner
+	rangeIdx map[*ast.RangeStmt]*types.Var
 }
 
 func NewEngine(p *load.Prog) *Engine {
@@ -926,6 +927,11 @@ func (a *Analysis) flowBlock(b *cfg.Block, idx int, st State) []State {
 }
 
 func (a *Analysis) rangeKill(st State, rs *ast.RangeStmt) State {
+	if id, ok := rs.Key.(*ast.Ident); rs.Key == nil || (ok && id.Name == "_") {
+		if iv, have := a.Fn.Eng.rangeIdx[rs]; have {
+			st = a.killVar(st, iv)
+		}
+	}
 	for _, e := range []ast.Expr{rs.Key, rs.Value} {
 		if e == nil {
 			continue
@@ -947,6 +953,12 @@ func (a *Analysis) rangeEnter(st State, rs *ast.RangeStmt) State {
 		if obj := f.Info.ObjectOf(id); obj != nil && !f.volatile[obj] {
 			kt = Var(obj)
 		}
+	} else if rs.Key == nil || ok {
+		// `for _, v := range xs`: the position still exists, it just has no name in the source
+		switch xt.Underlying().(type) {
+		case *types.Slice, *types.Array:
+			kt = Var(f.Eng.rangeIndex(rs))
+		}
 	}
 	switch xt.Underlying().(type) {
 	case *types.Slice, *types.Array, *types.Basic:
@@ -955,13 +967,29 @@ func (a *Analysis) rangeEnter(st State, rs *ast.RangeStmt) State {
 			st = st.Assume(And(FGe(kt, ConstInt(0)), FLt(kt, LenOf(x))))
 			if vid, ok := rs.Value.(*ast.Ident); ok && vid.Name != "_" {
 				if vo := f.Info.ObjectOf(vid); vo != nil && !f.volatile[vo] && !isBool(vo.Type()) {
-					st = st.Assume(FEq(Var(vo), Index(x, kt, vo.Type())))
+					st = st.Assume(FEq(Var(vo), IndexOf(x, kt, vo.Type())))
 				}
 			}
 		}
 	}
 	return a.clean(st)
 }
+
+// rangeIndex returns the unnamed position variable of a range statement without a key.
+func (e *Engine) rangeIndex(rs *ast.RangeStmt) *types.Var {
+	if e.rangeIdx == nil {
+		e.rangeIdx = map[*ast.RangeStmt]*types.Var{}
+	}
+	if v, ok := e.rangeIdx[rs]; ok {
+		return v
+	}
+	v := types.NewVar(rs.Pos(), nil, fmt.Sprintf("ι@%d", e.Prog.Fset.Position(rs.Pos()).Line), types.Typ[types.Int])
+	e.rangeIdx[rs] = v
+	return v
+}
+
+// RangeIndex exposes the position variable of a key-less range loop to rules.
+func (e *Engine) RangeIndex(rs *ast.RangeStmt) *types.Var { return e.rangeIndex(rs) }
 
 // clean drops atoms over volatile variables (assigned inside closures).
 func (a *Analysis) clean(st State) State {
@@ -1223,6 +1251,9 @@ func (a *Analysis) step(st State, n ast.Node) State {
 	}
 	st = a.enter(st, n)
 	defer func() { a.cur = nil }()
+	if derefStmts {
+		st = st.Assume(a.derefsIn(n))
+	}
 	switch x := n.(type) {
 	case *ast.AssignStmt:
 		st = a.callKills(st, x)
@@ -1489,11 +1520,33 @@ func (a *Analysis) assign(st State, lhs, rhs ast.Expr, tok token.Token) State {
 		neg := st.Assume(And(Not(rf), Not(FBool(ltm))))
 		return Join(pos, neg)
 	}
+	// x = y[lo:hi] has length hi-lo (hi alone for a prefix)
+	if se, ok := ast.Unparen(rhs).(*ast.SliceExpr); ok && se.High != nil && se.Max == nil {
+		if _, isSlice := lt.Underlying().(*types.Slice); isSlice {
+			hi := a.term(se.High)
+			var n *Term
+			if se.Low == nil {
+				n = hi
+			} else if lo := a.term(se.Low); lo != nil {
+				n = Bin("-", hi, lo)
+			}
+			if n != nil && f.Eng.Canon.PureTerm(n) && !selfRef(n) {
+				st = st.Assume(FEq(LenOf(ltm), n))
+			}
+		}
+	}
 	// allocation facts: fresh storage is non-nil, a made slice has the given length
 	switch x := ast.Unparen(rhs).(type) {
 	case *ast.UnaryExpr:
 		if x.Op == token.AND {
 			st = st.Assume(FNotNil(ltm))
+			if cl, ok := ast.Unparen(x.X).(*ast.CompositeLit); ok {
+				if p, ok := lt.Underlying().(*types.Pointer); ok {
+					if _, ok := p.Elem().Underlying().(*types.Struct); ok {
+						st = a.literalFields(st, ltm, lt, cl)
+					}
+				}
+			}
 		}
 	case *ast.CompositeLit:
 		switch lt.Underlying().(type) {
@@ -1502,6 +1555,8 @@ func (a *Analysis) assign(st State, lhs, rhs ast.Expr, tok token.Token) State {
 			if len(x.Elts) == 0 {
 				st = st.Assume(FEq(LenOf(ltm), ConstInt(0)))
 			}
+		case *types.Struct:
+			st = a.literalFields(st, ltm, lt, x)
 		}
 	case *ast.CallExpr:
 		if id, ok := x.Fun.(*ast.Ident); ok {
@@ -1527,6 +1582,59 @@ func (a *Analysis) assign(st State, lhs, rhs ast.Expr, tok token.Token) State {
 		return st
 	}
 	return st.Assume(FEq(ltm, rt))
+}
+
+// literalFields: `x := T{F: e}` (or &T{...}) stores e into x.F exactly as `x.F = e` would.
+func (a *Analysis) literalFields(st State, base *Term, baseT types.Type, lit *ast.CompositeLit) State {
+	f := a.Fn
+	stt := structOf(baseT)
+	if stt == nil {
+		return st
+	}
+	for _, el := range lit.Elts {
+		kv, ok := el.(*ast.KeyValueExpr)
+		if !ok {
+			return st // positional literal: not used for API structs
+		}
+		kid, ok := kv.Key.(*ast.Ident)
+		if !ok {
+			continue
+		}
+		var fld *types.Var
+		for i := 0; i < stt.NumFields(); i++ {
+			if stt.Field(i).Name() == kid.Name {
+				fld = stt.Field(i)
+			}
+		}
+		if fld == nil {
+			continue
+		}
+		ft := mk('f', fieldKey(baseT, fld), fld, fld.Type(), base)
+		switch v := ast.Unparen(kv.Value).(type) {
+		case *ast.UnaryExpr:
+			if v.Op == token.AND {
+				st = st.Assume(FNotNil(ft))
+			}
+		case *ast.CallExpr:
+			if id, ok := v.Fun.(*ast.Ident); ok {
+				if b, ok := f.Info.ObjectOf(id).(*types.Builtin); ok && (b.Name() == "new" || b.Name() == "make") {
+					st = st.Assume(FNotNil(ft))
+				}
+			}
+		}
+		if isBool(fld.Type()) {
+			rf := a.formula(kv.Value)
+			if !formulaMentions(rf, base.key) {
+				st = Join(st.Assume(And(rf, FBool(ft))), st.Assume(And(Not(rf), Not(FBool(ft)))))
+			}
+			continue
+		}
+		rt := a.term(kv.Value)
+		if rt != nil && f.Eng.Canon.PureTerm(rt) && !rt.Mentions(func(s *Term) bool { return s.key == base.key }) {
+			st = st.Assume(FEq(ft, rt))
+		}
+	}
+	return st
 }
 
 func formulaMentions(f *Formula, key string) bool {
@@ -1743,3 +1851,75 @@ func (a *Analysis) Dump() string {
 }
 
 var derefVars = os.Getenv("ASV_DEREFVARS") != "0"
+
+var derefStmts = os.Getenv("ASV_DEREFSTMTS") != "0"
+
+// derefsIn: the pointers that evaluating statement n certainly dereferences
+// (selector through a pointer, explicit *p) are non-nil once it has run.
+// Only variables, fields and cells that are evaluated unconditionally count.
+func (a *Analysis) derefsIn(n ast.Node) *Formula {
+	f := a.Fn
+	switch n.(type) {
+	case *ast.AssignStmt, *ast.ExprStmt, *ast.ReturnStmt, *ast.IncDecStmt, *ast.ValueSpec:
+	default:
+		return True
+	}
+	var out []*Formula
+	seen := map[string]bool{}
+	add := func(base ast.Expr) {
+		t := f.Info.TypeOf(base)
+		if t == nil {
+			return
+		}
+		if _, isPtr := t.Underlying().(*types.Pointer); !isPtr {
+			return
+		}
+		bt := a.term(base)
+		if bt == nil || seen[bt.key] || !(bt.K == 'v' && bt.Obj != nil || bt.K == 'f' || bt.K == 'i') || !f.Eng.Canon.PureTerm(bt) {
+			return
+		}
+		if bt.K == 'v' && f.volatile[bt.Obj] {
+			return
+		}
+		seen[bt.key] = true
+		out = append(out, FNotNil(bt))
+	}
+	var walk func(x ast.Node)
+	walk = func(x ast.Node) {
+		switch y := x.(type) {
+		case nil:
+			return
+		case *ast.FuncLit:
+			return
+		case *ast.BinaryExpr:
+			walk(y.X)
+			if y.Op != token.LAND && y.Op != token.LOR {
+				walk(y.Y)
+			}
+			return
+		case *ast.StarExpr:
+			add(y.X)
+		case *ast.SelectorExpr:
+			if sel, ok := f.Info.Selections[y]; ok && sel.Kind() == types.FieldVal && sel.Indirect() {
+				add(y.X)
+			}
+		case *ast.UnaryExpr:
+			if y.Op == token.AND {
+				return // &p.f does not load through p... it does evaluate p; keep it simple and skip
+			}
+		}
+		first := true
+		ast.Inspect(x, func(c ast.Node) bool {
+			if first {
+				first = false
+				return true
+			}
+			if c != nil {
+				walk(c)
+			}
+			return false
+		})
+	}
+	walk(n)
+	return And(out...)
+}
